@@ -196,10 +196,10 @@ def vec_paths(b, vec_local):
         return False
 
     def vec_id():
-        d = b.single_def(vec_local)
-        if d is not None and d[0] == "call":
-            t = d[2]
-            return b.origin({"copy": {"l": vec_local, "p": []}})
+        # the vector is identified by the call that made it, also when it was moved through a helper's parameter and back
+        o = b.origin({"copy": {"l": vec_local, "p": []}})
+        if o[0] == "call":
+            return o
         return ("phi", vec_local)
     V = vec_id()
 
@@ -232,6 +232,8 @@ def vec_paths(b, vec_local):
                 x = f0(tgt)
                 if x[0] == "const":
                     return ("resize_zeros", "to", x[1] if x[1] is not None else x[2])
+                if x[0] == "call" and re.search(r"<impl usize>::next_multiple_of$", x[1] or "") and len(x[3]) == 2 and is_len_of(x[3][0], V) and x[3][1][0] == "const":
+                    return ("resize_zeros", "round_up", fmt_origin(x[3][1]))
                 if x[0] == "bin" and x[1] == "BitAnd":
                     s_, m_ = f0(x[2]), x[3]
                     if s_[0] == "bin" and s_[1] in ("AddWithOverflow", "Add") and is_len_of(s_[2], V) and m_[0] == "un" and m_[1] == "Not" and f0(s_[3]) == f0(m_[2]):
